@@ -163,3 +163,28 @@ Fixpoint shape (t : tree) : list tree :=
   | Leaf k kw c raw => if c then [Leaf k kw true (if kw then upper raw else raw)] else []
   | Node k cs => if existsb has_code cs then [Node k (flat_map shape cs)] else []
   end.
+
+(** * 5. The keyword-terminator guard of [greedy_match] (match_algorithms.rs 456-476)
+    A terminator that is a plain keyword only counts if the previous non-meta token is
+    whitespace or a newline (or if it sits exactly at [working_idx]).
+    [None]: [segments[idx - 1]] with [idx = 0] (index underflow, a panic). *)
+Definition is_meta (t : token) : bool := match t_kind t with KMeta => true | _ => false end.
+Definition is_gap_kind (t : token) : bool :=
+  match t_kind t with KWhitespace | KNewline => true | _ => false end.
+
+Fixpoint guard_loop (fuel : nat) (toks : list token) (idx working : N) (dflt : bool) : option bool :=
+  match fuel with
+  | O => Some dflt
+  | S f =>
+      if idx <? working then Some dflt
+      else if idx =? 0 then None
+      else match nth_error toks (N.to_nat (idx - 1)) with
+           | None => None
+           | Some t => if is_meta t then guard_loop f toks (idx - 1) working dflt
+                       else Some (is_gap_kind t)
+           end
+  end.
+
+(** [allowable_match] for a terminator matched at [start_idx] while scanning from [working_idx] *)
+Definition terminator_guard (toks : list token) (working start : N) : option bool :=
+  guard_loop (S (N.to_nat (start - working))) toks start working (start =? working).
